@@ -18,7 +18,9 @@ import uuid
 from modelx.core.base import (
     get_impls, Interface
 )
-from modelx.core.util import AutoNamer, get_module, get_param_func
+from modelx.core.util import (
+    AutoNamer, get_module, get_module_funcs, get_param_func)
+from modelx.core.formula import Formula
 
 
 class BaseParent(Interface):
@@ -788,6 +790,20 @@ class EditableParentImpl(BaseParentImpl):
 
         if "doc" not in params:
             params["doc"] = module.__doc__
+
+        # Validate the functions before the space is created:
+        # the new space will hold the references of the model, the
+        # references passed, and the cells and references it derives from
+        # its bases, of which only cells can be overridden by the functions.
+        taken = set(self.model.global_refs)
+        taken.update(params.get("refs") or ())
+        bases = params.get("bases") or ()
+        for base in (bases if isinstance(bases, (list, tuple)) else [bases]):
+            taken.update(base.own_refs)
+        for fname, func in get_module_funcs(module).items():
+            Formula(func)   # raises if func cannot be a formula
+            if fname in taken:
+                raise ValueError("Cannot create cells '%s'" % fname)
 
         space = self.model.updater.new_space(self, **params)
         space.new_cells_from_module(module)
